@@ -159,6 +159,54 @@ CONTRACTS = [GetTimesFrame(), NetcdfClose('close'), NetcdfClose('__del__')] + \
                                                    ('nearest', 'ascending', None), ('bounds', 'ascending', 'nx2'))]
 
 
+class CopyVariable(Contract):
+    """copyVariable(var, key): the new variable is registered under key, has the dimensions, attributes and (with data) the
+    element values of the source, and owns a FRESH buffer: writing it can never change the source"""
+    prop = 'C05'
+    target = F + '::PseudoNetCDFFile.copyVariable'
+
+    def __init__(self, rank, withdata=True):
+        self.rank, self.withdata = rank, withdata
+        self.name = 'copyVariable[rank %d,%s]' % (rank, 'with data' if withdata else 'structure only')
+
+    def inputs(self, ctx, I):
+        from pyvc import frontend
+        names = ['t', 'z', 'y'][:self.rank]
+        self.lens = {d: ctx.fresh('len_' + d) for d in names}
+        f = pnc_file(I, dimensions={d: dim_obj(I, d, n) for d, n in self.lens.items()})
+        src = sym_array('srcvar', tuple(self.lens[d] for d in names), 'f')
+        mod = frontend.load('core/_variables.py')
+        node, _ = mod.find('PseudoNetCDFVariable')
+        src.cls = I.classref(mod, node)
+        src.attrs.update(dimensions=tuple(names), _ncattrs=('units', 'long_name'), units='ppb', long_name='source')
+        self.src = src
+        self.src0 = src.buf.get
+        return dict(self=f, var=src, key='copied', withdata=self.withdata)
+
+    def requires(self, inp):
+        return And(*[ge(n, 0) for n in self.lens.values()])
+
+    def ensures(self, inp, res, I):
+        if not isinstance(res, SArr):
+            return [('returns-variable', False)]
+        src = inp['var']
+        q = tuple(z3.Int('cv_%d' % i) for i in range(self.rank))
+        rng = And(*[And(ge(i, 0), lt(i, n)) for i, n in zip(q, src.shape)]) if self.rank else True
+        out = [('registered-under-key', inp['self'].attrs['variables'].get('copied') is res),
+               ('fresh-buffer (no aliasing of the source)', res.buf is not src.buf),
+               ('dimensions-copied', res.attrs.get('dimensions') == src.attrs['dimensions']),
+               ('shape', And(*[eq(a, b) for a, b in zip(res.shape, src.shape)]) if self.rank else True),
+               ('attribute-names-in-order', tuple(res.attrs.get('_ncattrs', ())) == ('units', 'long_name')),
+               ('attribute-values', res.attrs.get('units') == 'ppb' and res.attrs.get('long_name') == 'source'),
+               ('source-data-unchanged', z3.ForAll(list(q), Implies(rng, eq(src.buf.get(q), self.src0(q)))) if self.rank else True)]
+        if self.withdata and self.rank:
+            out.append(('element-values-copied', Implies(rng, eq(res.get(q), src.get(q)))))
+        return out
+
+
+CONTRACTS += [CopyVariable(1), CopyVariable(3), CopyVariable(2, False)]
+
+
 def bounded(tier, seed):
     from rtc import harness as H, ops
     import numpy as np
